@@ -9,3 +9,10 @@ TRUSTED = ["hand-written Lean models, checked against the code on every run", "S
 
 def run(rep, tier, seed, replay=None):
     decode_generic.run("C07", rep, tier, seed, replay)
+    if replay is None:
+        # probes of recorded (unrepaired) findings, one hook per family module
+        import importlib
+        for fam in decode_generic.families_of("C07"):
+            mod = importlib.import_module("props.families." + fam)
+            if hasattr(mod, "finding_probes"):
+                mod.finding_probes(rep)
